@@ -292,7 +292,7 @@ class VocabShape(Shape):
         try:
             vs = os.path.join(self.tmp, 'vscode')
             os.makedirs(vs, exist_ok=True)
-            VSCodeConfigGenerator(cfgp, 0, vs, None, None, None).generate()
+            VSCodeConfigGenerator(cfgp, self.params.get('verbose', 0), vs, None, None, None).generate()
             ext = os.path.join(vs, 'extensions', self.params.get('lang', 'sxlang'))
             for root, _, files in os.walk(ext):
                 for fn in files:
@@ -337,7 +337,7 @@ class VocabShape(Shape):
         try:
             sb = os.path.join(self.tmp, 'sublime')
             os.makedirs(sb, exist_ok=True)
-            SublimeConfigGenerator(cfgp, 0, sb, None, None, None).generate()
+            SublimeConfigGenerator(cfgp, self.params.get('verbose', 0), sb, None, None, None).generate()
             pk = os.path.join(sb, self.params.get('lang', 'sxlang') + '.sublime-package')
             with zipfile.ZipFile(pk) as z:
                 if z.testzip() is not None:
@@ -561,6 +561,9 @@ VOCABS = {
     'name-with-angle-bracket': dict(mnemonics=['mov'], registers=['a'], lang='a<b'),
     'name-with-quote': dict(mnemonics=['mov'], registers=['a'], lang='say"hi'),
     'name-with-apostrophe-and-dot': dict(mnemonics=['mov'], registers=['a'], lang="it's.v2"),
+    # what is generated does not depend on how much is logged
+    'plain-verbose-3': dict(mnemonics=['mov', 'add', 'jmp'], registers=['a', 'b', 'sp'], macros=['push2'], predefined=['RESET'], verbose=3),
+    'prefixes-verbose-1': dict(mnemonics=['ld', 'ldi', 'l'], registers=['r', 'r1'], macros=['ldx'], verbose=1),
     'single-letter': dict(mnemonics=['a', 'b'], registers=['c'], macros=['d'], predefined=['e']),
 }
 
